@@ -13,7 +13,7 @@ from vlib.runner import Violation, Discard, HarnessError, VERIF
 
 ID = "C08"
 RULE = (
-    "cases = operation sequences (drawn as plain data, interpreted step by step) over a pool of 2-3 generated projects with and without programs: run(i), rerun(i), run without "
+    "cases = operation sequences (drawn as plain data, interpreted step by step) over a pool of 2-3 generated projects with and without programs, derivative parameters, parameter scenarios and explicit partial initializations: run(i), rerun(i), run without "
     "programs, build-model + deepcopy + process both, build-model + pickle round trip + process, Result save/load, runs of other projects in between; a sample of cases also runs the "
     "spec in fresh processes with different PYTHONHASHSEED values; oracle: the digest of all output arrays of project i never changes (bitwise), the canonical structural form of parset, "
     "progset, instructions, framework, data and settings is identical before and after every call, copies give the original's digest; non-trivial = >= 2 distinct projects, a rerun "
@@ -25,16 +25,22 @@ ASSUMPTIONS = [
 ]
 BUDGET = {"quick": 400, "thorough": 10000}
 TIME_CAP = {"quick": 75, "thorough": 1500}
-PROFILE = {"p_programs": 0.6, "max_steps": 10, "min_steps": 3, "extreme": 0.05, "p_function": 0.4, "p_timed": 0.4, "p_junction": 0.4, "p_output_pars": 0.5, "max_pops": 2, "p_interaction": 0.4}
+PROFILE = {"p_deriv": 0.2, "p_agg_transition": 0.1, "p_programs": 0.6, "max_steps": 10, "min_steps": 3, "extreme": 0.05, "p_function": 0.4, "p_timed": 0.4, "p_junction": 0.4, "p_output_pars": 0.5, "max_pops": 2, "p_interaction": 0.4}
 OPS = ["run", "run", "rerun", "run_noprog", "deepcopy", "pickle", "saveload", "runsim_api"]
 
 
 @st.composite
 def cases(draw, prof, p_fresh):
+    from props import c06
+
     n = draw(st.integers(2, 3))
-    specs = [draw(gen_model.model_specs(prof)) for _ in range(n)]
+    projs = [draw(c06.cases(prof)) for _ in range(n)]  # {"spec": ModelSpec, "scen": parameter scenario or None}
+    specs = [pr["spec"] for pr in projs]
+    scens = [pr["scen"] for pr in projs]
+    # some projects carry an explicit, partial initialization (values for only some compartments; the rest start empty)
+    partial = [draw(st.sampled_from([None, None, 0.3, 0.7])) for _ in range(n)]
     ops = draw(st.lists(st.tuples(st.sampled_from(OPS), st.integers(0, n - 1)), min_size=3, max_size=8))
-    return {"specs": specs, "ops": [list(o) for o in ops], "fresh": draw(st.integers(1, 1000)) <= int(p_fresh * 1000)}
+    return {"specs": specs, "scens": scens, "partial_init": partial, "ops": [list(o) for o in ops], "fresh": draw(st.integers(1, 1000)) <= int(p_fresh * 1000)}
 
 
 def strategy(tier):
@@ -55,21 +61,46 @@ def inputs_canon(b):
     }
 
 
+def build_project(spec, scen=None, frac=None):
+    """ModelSpec (+ optional parameter scenario, + optional partial explicit initialization) -> built inputs"""
+    import atomica as at
+
+    b = build.build_all(spec)
+    if scen:
+        sv = {}
+        for name, bypop in scen["values"].items():
+            sv[name] = {(tuple(key.split(">")) if ">" in key else key): {"t": list(ov["t"]), "y": list(ov["y"])} for key, ov in bypop.items()}
+        b["ps"] = at.ParameterScenario(name="scen", scenario_values=sv, interpolation=scen["interp"]).get_parset(b["ps"], b["P"])
+    if frac is not None:
+        res0, _ = simcase.two_step(b["P"], b["ps"], None, None)
+        init = at.parameters.Initialization.from_result(res0, parset=None, year=float(res0.t[0]))
+        keys = sorted(init.values, key=repr)
+        keep = keys[: max(1, int(len(keys) * frac))]
+        b["ps"].initialization = at.parameters.Initialization(values={kk: init.values[kk] for kk in keep}, year=init.year, dt=init.dt)
+    return b
+
+
 def check(case):
     import atomica as at
     import sciris as sc
 
     simcase.quiet()
     pool = []
-    for spec in case["specs"]:
+    for k, spec in enumerate(case["specs"]):
+        scen = (case.get("scens") or [None] * len(case["specs"]))[k]
+        frac = (case.get("partial_init") or [None] * len(case["specs"]))[k]
         try:
-            b = build.build_all(spec)
+            b = build_project(spec, scen, frac)
         except HarnessError:
             raise
         except Exception as e:
             raise Discard("atomica raised %s at %s while building (decided by C18)" % (type(e).__name__, simcase.atomica_frame(e)))
         pool.append({"b": b, "ref": None, "ref_noprog": None, "before": inputs_canon(b)})
     labels = set()
+    if any(case.get("scens") or []):
+        labels.add("project-with-parameter-scenario")
+    if any(x is not None for x in (case.get("partial_init") or [])):
+        labels.add("project-with-partial-initialization")
     last_other = {}
     rerun_after_other = False
     copies = 0
@@ -156,7 +187,7 @@ def check(case):
             scratch = os.environ.get("VERIF_SCRATCH") or tempfile.gettempdir()
             fn = os.path.join(scratch, "c08_%d.json" % os.getpid())
             with open(fn, "w") as f:
-                json.dump(spec, f)
+                json.dump({"spec": spec, "scen": (case.get("scens") or [None])[0], "partial": (case.get("partial_init") or [None])[0]}, f)
             try:
                 for hs in ("1", "987"):
                     env = dict(os.environ, PYTHONHASHSEED=hs)
